@@ -13,7 +13,7 @@ RULE = ('Cells of the cross product method {GET, POST, OPTIONS, PUT, DELETE, HEA
         '{absent, 4, 3, empty, 44, repeated} x transport {absent, polling, websocket, bogus, '
         'Polling} x sid kind {absent, live polling, live upgraded, mid-upgrade, closed-not-reaped, '
         'unknown, rejected} x request kind {plain HTTP, WebSocket upgrade, GET with Upgrade: '
-        'websocket, h2c, GET with Upgrade but no Connection header} x JSONP index {absent, '
+        'websocket, h2c, GET with Upgrade but no Connection header, GET asking to upgrade to h2c (an ordinary GET)} x JSONP index {absent, '
         '0, 12, x, empty} x configured transports {both, polling, websocket} x server {threaded, '
         'asyncio}; each cell is issued against a freshly built session in the required state with '
         'one tagged message queued and a bystander session. Oracle: reference admission rule '
@@ -32,12 +32,14 @@ EIOS = ['absent', '4', '3', 'empty', '44', 'repeated']
 TRANSPORTS = ['absent', 'polling', 'websocket', 'bogus', 'Polling', 'poll', 'socket']
 SIDS = ['absent', 'live-polling', 'live-upgraded', 'mid-upgrade', 'closed', 'unknown', 'rejected',
         'empty']     # 'empty': the parameter is there without a value (sid=) - names no session
-KINDS = ['http', 'ws', 'ws-connlist', 'ws-list', 'ws-noconn']
+KINDS = ['http', 'ws', 'ws-connlist', 'ws-list', 'ws-noconn', 'h2c']
 # a WebSocket upgrade whose Connection header is a token list (what Firefox sends)
 CONNLIST = [('Upgrade', 'websocket'), ('Connection', 'keep-alive, Upgrade')]
 # requests whose upgrade headers are not exactly those of a WebSocket upgrade
 ODD = {'ws-list': [('Upgrade', 'websocket, h2c'), ('Connection', 'Upgrade')],
        'ws-noconn': [('Upgrade', 'websocket')]}
+# an upgrade request for another protocol: an ordinary GET as far as this server is concerned
+H2C = [('Upgrade', 'h2c'), ('Connection', 'Upgrade, HTTP2-Settings'), ('HTTP2-Settings', 'AAMAAABkAAQAAP__')]
 JSONP = ['absent', '0', '12', 'x', 'empty', 'sup2']
 CONFIGS = ['both', 'polling', 'websocket', 'polling-str', 'websocket-str']
 IMPLS = ['thread', 'async']
@@ -61,7 +63,7 @@ def feasible(c):
                             tr not in ('absent', 'polling', 'websocket') or j != 'absent' or
                             cfg.endswith('-str')):
         return False
-    if kind in ('ws-list', 'ws-noconn', 'ws-connlist') and (
+    if kind in ('ws-list', 'ws-noconn', 'ws-connlist', 'h2c') and (
             eio not in ('4', 'absent') or j not in ('absent', 'x') or cfg.endswith('-str')):
         return False            # the odd-header kinds vary sid, transport and configuration
     if cfg.startswith('polling') and sidk in ('live-upgraded', 'mid-upgrade'):
@@ -77,6 +79,8 @@ def ref_admission(c):
     """-> ('refuse', {statuses}, why) | ('admit',) | ('open', why)"""
     if c[4] == 'ws-connlist':
         return ref_admission(c[:4] + ('ws',) + c[5:])
+    if c[4] == 'h2c':
+        return ref_admission(c[:4] + ('http',) + c[5:])
     if c[4] in ODD:
         # such a request is either an ordinary GET or an upgrade request: certain only where
         # both readings agree
@@ -238,6 +242,8 @@ def check_cell(c, ctx=None):
         elif kind in ODD and impl == 'thread':
             # a WSGI gateway with WebSocket support can upgrade any GET the application chooses
             r = ex.world.ws_open(q, headers=[('Host', 'localhost')], upgrade_hdrs=ODD[kind])
+        elif kind == 'h2c':
+            r = ex.world.http('GET', q, headers=[('Host', 'localhost')] + H2C)
         elif kind in ODD:
             # an ASGI server opens a websocket scope only for an exact upgrade request
             r = ex.world.http('GET', q, headers=[('Host', 'localhost')] + ODD[kind])
@@ -252,14 +258,14 @@ def check_cell(c, ctx=None):
             status, done = r.status, r.done
         # (an ASGI websocket scope that is answered as a polling open gets 'websocket.accept' from
         # the driver without any transport being used: open cell, see ref_admission)
-        if (kind in ODD or (kind != 'http' and sidk not in ('absent', 'empty'))) and \
+        if (kind in ODD or (kind not in ('http', 'h2c') and sidk not in ('absent', 'empty'))) and \
                 cfg.startswith('polling') and (
                 getattr(r, 'accepted', False) or getattr(r, 'ws_attempt', False)):
             raise V(impl, 'inadmissible-websocket-accepted',
                     'WS|sid=%s|transport-not-allowed|%s' % (sidk, kind),
                     'cell %s: the server spoke WebSocket although transports=polling '
                     '(query %r, request kind %s)' % (c, q, kind), rep)
-        trig = '%s|sid=%s|%s' % (method if kind == 'http' else 'WS', sidk,
+        trig = '%s|sid=%s|%s' % (method if kind == 'http' else ('GET+h2c' if kind == 'h2c' else 'WS'), sidk,
                                  '+'.join(ref[2]) if ref[0] == 'refuse' else ref[0])
         if ref[0] == 'refuse':
             if isws:
